@@ -242,7 +242,18 @@ def add_handler(I):
     oname = w.choose(["motor", "det"], "object name") if has_obj else None
     obj = Opaque("obj", {"token": "dev", "attrs": {"name": oname}, "truth": True}) if has_obj else None
     msg = MsgVal(cmd, obj, (), {}, None)
-    fkind = w.choose(["none", "callable", "name"], "msg_filter kind")
+    fkind = w.choose(["none", "callable", "name", "single command name"], "msg_filter kind")
+    if fkind == "single command name":
+        # a handler registered for ONE command given as a string handles exactly that command - not the commands whose name is a part of it
+        # ('wait_for' / 'wait', 'unstage' / 'stage', 'unmonitor' / 'monitor', 'unsubscribe' / 'subscribe') nor those it is a part of
+        reg, other = w.choose([("wait_for", "wait"), ("unstage", "stage"), ("unmonitor", "monitor"), ("wait", "wait_for"), ("set", "settle")], "names")
+        cmd2 = w.choose([reg, other], "message command (registered / look-alike)")
+        sim3 = bare(I, Q, message_handlers=[], return_value=None, callbacks={}, next_callback_token=0)
+        call_method(I, sim3, "add_handler", reg, h1)
+        got = I.call_value(sim3.message_handlers[0].predicate, MsgVal(cmd2, obj, (), {}, None))
+        w.check(f"{Q}.add_handler#ensures[predicate: listed command and filter (none / callable / object name)]", I.truth(got) == (cmd2 == reg),
+                {"replay": "simulators.add_handler_names", "registered": reg, "message": cmd2})
+        return
     sim2 = bare(I, Q, message_handlers=[], return_value=None, callbacks={}, next_callback_token=0)
     if fkind == "none":
         call_method(I, sim2, "add_handler", ["read", "set"], h1)
